@@ -36,7 +36,7 @@ try:
     meta["demo_with_change"] = "FAIL" if d1.returncode != 0 else "PASS"
     # existing suite with the change (demo excluded)
     t0 = time.time()
-    s = sh("go1.27.0 test -vet=off -count=1 -skip SeededDemo ./internal/... ./cmd/... 2>&1 | grep -v 'no test files' | grep -v '^ok' | head -20")
+    s = sh("go1.27.0 test -vet=off -count=1 -timeout 60m -skip SeededDemo ./internal/... ./cmd/... 2>&1 | grep -v 'no test files' | grep -v '^ok' | head -20")
     meta["existing_tests_with_change"] = "PASS" if s.stdout.strip() == "" else "FAIL: " + s.stdout[-600:]
     if s.stdout.strip() != "":
         # the machine is shared and loaded: timing assertions of unrelated packages flake.
